@@ -60,7 +60,14 @@ impl Property for C11 {
 
     fn generate(&self, rng: &mut Rng, tier: Tier) -> Case {
         let mut case = Case::new("C11", "transport");
-        let n = rng.range(0, if tier == Tier::Thorough { 20 } else { 10 });
+        // one scenario in ten has a long history (whatever accumulates per record - counters,
+        // caches, reused buffers - gets the chance to saturate within one run)
+        let long = rng.chance(1, 10);
+        let n = if long {
+            rng.range(80, 220)
+        } else {
+            rng.range(0, if tier == Tier::Thorough { 20 } else { 10 })
+        };
         let mut vals: Vec<Val> = Vec::new();
         for i in 0..n {
             if i > 0 && rng.chance(1, 4) {
@@ -75,7 +82,12 @@ impl Property for C11 {
                 case.pieces[last].tag = "redelivery".into();
                 continue;
             }
-            let v = gen_record(rng, i as u32, false);
+            let v = if long && rng.chance(1, 2) {
+                // small values with many empty containers
+                gen_val(rng, 2, false)
+            } else {
+                gen_record(rng, i as u32, false)
+            };
             // identity = index of first delivery
             case.pieces.push(Piece::rec(spell(&v, rng, 1), i as u32));
             vals.push(v);
@@ -273,6 +285,9 @@ impl Property for C11 {
         }
         if has_opt(&case.opts, "--regular-expression-cache-size") {
             ctx.stats.probe("regex cache size set");
+        }
+        if n >= 64 {
+            ctx.stats.probe("long history (>= 64 records)");
         }
         None
     }
